@@ -116,7 +116,7 @@ reg("C06", exc_ops=WRITE_OPS | RULE_OPS, nontrivial=nt_we, hook="potential",
     profile={"raw": 0.0, "long": 0.15, "adversarial": 0.4, "redeclare": 0.8}, title="Automatic creation")
 reg("C07", exc_ops=set(), nontrivial=nt_links, hook="network", obs_fail=False,
     weights={"AddLinks": 24, "IndexBatchCrawl": 16, "CreateWe": 10, "AddPrefix": 10, "RemovePrefix": 5, "DeleteWe": 5},
-    profile={"raw": 0.0, "long": 0.1, "nlrus": 12, "bigids": 0.4, "prefixlinks": 0.3, "siblinks": 0.25},
+    profile={"raw": 0.0, "long": 0.1, "nlrus": 12, "bigids": 0.65, "prefixlinks": 0.3, "siblinks": 0.25},
     title="Webentity network")
 reg("C08", exc_ops=set(), nontrivial=nt_links, hook="welinks", obs_fail=False,
     weights={"AddLinks": 24, "IndexBatchCrawl": 16, "CreateWe": 10, "AddPrefix": 6, "RemovePrefix": 5, "DeleteWe": 5},
@@ -231,7 +231,7 @@ reg("C15", exc_ops=ALL_OPS, nontrivial=nt_long, hook="pair",
     weights={"Reopen": 0, "Clear": 3, "Recreate": 3, "AddRule": 6},
     profile={"raw": 0.3, "long": 0.7, "nlrus": 10}, n=(40, 500), steps=(12, 20), title="Memory == file")
 reg("C19", exc_ops=set(), nontrivial=nt_long, hook="metrics", prefixes=["C19.", "C02.inv.refonce", "C02.inv.blockshape"],
-    profile={"long": 0.9, "raw": 0.3}, title="Storage accounting")
+    profile={"long": 0.9, "raw": 0.3, "twins": 0.9}, n=(160, 1500), title="Storage accounting")
 
 
 # ---------------------------------------------------------------------------------------
